@@ -524,7 +524,7 @@ class _Sub(object):
         return self.en.solver
 
 
-STR_ALPHA = "abcXYZ019 _-.:/{}[],"
+STR_ALPHA = "abcXYZ019 _-.:/{}[],'\""
 
 
 def json_same(got, exp, eqs):
